@@ -769,6 +769,24 @@ def _concurrent_runs(rng, tier, st, cov):
     cov.setdefault('extra', {})['concurrent_runs'] = {'runs': n, 'threads': 4}
     return out
 
+def extra_C12(rng, tier, st, cov):
+    """C++ only, self-checking: one built-in callback object asked about a checkpoint with n results and then about another one, with
+    another history, that holds n + 1; and the user-driven loops / checkpoint-changing callbacks of C19 (the protocol is C12's too)"""
+    out = []; n = 0
+    for t in ('d', 'f', 'l'):
+        for _ in range(3 if tier == 'quick' else 12):
+            line = dump([1, t, 'cbreuse', [rng.choice([1, 2, 3, 5]), rng.choice([40, 100]), rng.getrandbits(30)], []])
+            rc, o = run_one(st['cxx_exe'], line)
+            n += 1
+            if rc != 0 or not o or not isinstance(o[1], list) or o[1][0] != 'ok':
+                out.append(viol('one built-in callback object asked about a checkpoint with n results and then about a different one with n + 1: its answer differs from a fresh callback\'s for %s of %s targets' % (
+                    (o[1][2], o[1][1]) if o and isinstance(o[1], list) and len(o[1]) > 2 else ('?', '?')), [], {'spec': line}))
+    cov.setdefault('extra', {})['callback_object_reused_directly'] = {'runs': n}
+    return out + extra_C19(rng, tier, st, cov)
+
+def extra_C08(rng, tier, st, cov):
+    return extra_C19(rng, tier, st, cov)
+
 def extra_C19(rng, tier, st, cov):
     """C++ only, self-checking: VEGAS driven by the user's own loop (pdf(), vegas_iteration, add(), rollback(), an iteration repeated with
     other calls) and hep::vegas with a callback that takes the checkpoint by reference and discards an iteration"""
